@@ -2257,6 +2257,17 @@ impl Node {
         self.persister
             .update_tracker(&self.get_id(), &tracker)
             .map_err(|_| internal_error("tracker persist failed"))?;
+        drop(tracker);
+        drop(channels_lock);
+
+        // the fee that `check_onchain_tx` counted against the fee velocity limit must still
+        // count after a restart, now that the transaction is signed
+        let state = self.get_state();
+        if !state.fee_velocity_control.is_unlimited() {
+            self.persister
+                .update_node(&self.get_id(), &*state)
+                .map_err(|_| internal_error("node persist failed"))?;
+        }
 
         Ok(witvec)
     }
@@ -2350,10 +2361,6 @@ impl Node {
                 non_beneficial_sat * 1000,
                 state.fee_velocity_control.limit
             );
-        }
-        if !state.fee_velocity_control.is_unlimited() {
-            // the fee now counts against the velocity limit - make sure it still does after a restart
-            self.persister.update_node(&self.get_id(), &*state).expect("node persistence failure");
         }
 
         Ok(())
